@@ -94,6 +94,17 @@ CHECKS = {
             "trusted: exact geometry in mc/geom.py and the angle oracle shared with C16; guard band 1e-9 at interval ends "
             "modulo 2pi and on rotated/circular boundaries",
             "DESIGN.md §4 C08"),
+    "C05": ("exhaustive enumeration of component kinds (singles, all unordered pairs, all together) x application level x "
+            "translations x a 42-letter angle alphabet (dense near 0, +-0.05, quarter turns, +-2pi, ints), comparing public "
+            "snapshots before/after with an independently computed rigid motion, plus undo",
+            "13 component kinds (lanelet+stop line, sign, light, static/dynamic/set-based/phantom/environment obstacles, every "
+            "shape kind, uncertain regions and orientation intervals, planning problems with every goal-shape kind, lanelets "
+            "sharing one boundary array) at scenario / object / part level and 22 stand-alone leaf objects; every stored "
+            "point must equal R(a)(p+t) within 1e-9*scale, every orientation theta+a modulo 2pi inside [-2pi,2pi], lengths / "
+            "radii / local obstacle shapes / discrete data unchanged, cached rectangle corners included, undo restores.",
+            "trusted: math.cos/sin on the snapshot (mc/snap.py rigid); translations and angles outside the alphabets and "
+            "scenarios beyond the component menu are not covered",
+            "DESIGN.md §4 C05"),
 }
 
 NOT_YET = {}
